@@ -430,7 +430,7 @@ class SegmentationImage:
         missing in the consecutive sequence from one to the maximum
         label number.
         """
-        return np.array(sorted(set(range(self.max_label + 1))
+        return np.array(sorted(set(range(int(self.max_label) + 1))
                                .difference(np.insert(self.labels, 0, 0))))
 
     def copy(self):
@@ -565,7 +565,7 @@ class SegmentationImage:
         cmap : `matplotlib.colors.ListedColormap`
             The matplotlib colormap with colors in RGBA format.
         """
-        return self._make_cmap(self.max_label + 1,
+        return self._make_cmap(int(self.max_label) + 1,
                                background_color=background_color,
                                seed=seed)
 
@@ -772,14 +772,14 @@ class SegmentationImage:
             return
 
         dtype = self.data.dtype  # keep the original dtype
-        relabel_map = np.zeros(self.max_label + 1, dtype=dtype)
+        relabel_map = np.zeros(int(self.max_label) + 1, dtype=dtype)
         relabel_map[self.labels] = self.labels
         relabel_map[labels] = new_label  # reassign labels
 
         if relabel:
             labels = np.unique(relabel_map[relabel_map != 0])
             if len(labels) != 0:
-                map2 = np.zeros(max(labels) + 1, dtype=dtype)
+                map2 = np.zeros(int(max(labels)) + 1, dtype=dtype)
                 map2[labels] = np.arange(len(labels), dtype=dtype) + 1
                 relabel_map = map2[relabel_map]
 
@@ -833,7 +833,7 @@ class SegmentationImage:
         old_slices = self.__dict__.get('slices', None)
         dtype = self.data.dtype  # keep the original dtype
         new_labels = np.arange(self.nlabels, dtype=dtype) + start_label
-        new_label_map = np.zeros(self.max_label + 1, dtype=dtype)
+        new_label_map = np.zeros(int(self.max_label) + 1, dtype=dtype)
         new_label_map[self.labels] = new_labels
 
         data_new = new_label_map[self.data]
